@@ -141,6 +141,29 @@ def impl_assert(ctab, mask, unk):
     return sorted(alts)
 
 
+def impl_vmaddr(keytabs, mask):
+    """apply_vmaddr on several key terms (tables over bp_x) -> for each valuation of the path: is the path still
+    satisfiable there (f_vmaddr is uninterpreted: some interpretation must admit the input)?"""
+    from halmos.cheatcodes import apply_vmaddr
+
+    sevm, ex, stack = fresh_state([scenarios.THIS], mask, 0)
+    with contextlib.redirect_stdout(io.StringIO()):
+        for tab in keytabs:
+            apply_vmaddr(ex, table_term(tab, 256))
+    out = []
+    for i, m in enumerate(mask):
+        if not m:
+            out.append(None)
+            continue
+        sol = z3.Solver()
+        sol.set("timeout", 5000)
+        for c in ex.path.conditions:
+            sol.add(c)
+        sol.add(_x() == i)
+        out.append(str(sol.check()))
+    return out
+
+
 def impl_jump(valid_n, dst_vals, unk):
     """program: JUMP(calldata word) with `valid_n` JUMPDEST;STOP landing pads and symbolic_jump on;
     valuations = the listed calldata words.  -> ('halt',) | sorted [(target, bits)]"""
@@ -297,6 +320,24 @@ def run(rep, tier, r):
                      + (f"; the failing inputs {lost} reach no failed-assertion state" if lost else "") + (f"; inputs {wrong} satisfy the assertion but are reported as failing" if wrong else "")
                      + (f"; inputs {uncovered} are covered by no state" if uncovered else ""),
                      case={"assert_case": [ctab, mask, unk], "implementation": ialts, "model": malts})
+    # ---- vm.addr: the distinctness constraints must not exclude an input (in particular none with equal keys)
+    nva = 12 if tier == "quick" else 200
+    for _ in range(nva):
+        nv = r.randrange(2, 5)
+        nk = r.randrange(2, 4)
+        keytabs = [[r.choice([1, 2, 3, 7, 1 << 200]) for _ in range(nv)] for _ in range(nk)]
+        mask = [1] * nv
+        rep.case({"bp": "vmaddr", "keys": keytabs}, nontrivial=any(len(set(col)) < nk for col in zip(*keytabs)))
+        try:
+            sat = impl_vmaddr(keytabs, mask)
+        except Exception as e:  # noqa: BLE001
+            rep.fail("broken-tie", f"vm.addr harness raised {type(e).__name__}: {e} on {keytabs}", case={"vmaddr_case": keytabs})
+            continue
+        lost = [i for i, a in enumerate(sat) if a == "unsat"]
+        if lost:
+            rep.fail("failing-input", f"vm.addr on the key tables {keytabs}: the valuations {lost} (keys {[[t[i] for t in keytabs] for i in lost]}) satisfy no interpretation of f_vmaddr any more: "
+                     "the distinctness constraints exclude inputs on which two key terms hold the same key", case={"vmaddr_case": keytabs, "satisfiable": sat})
+    rep.count("tie", "vm.addr distinctness cases", nva)
     # ---- symbolic JUMP
     njump = 12 if tier == "quick" else 150
     for _ in range(njump):
